@@ -469,6 +469,12 @@ func init() {
 		return tup(intVal(i), boolV(found))
 	}
 
+	// regexp matching is a function of the compiled expression and the text (no panic, no effect)
+	s["(*regexp.Regexp).MatchString"] = func(ex *Exec, fr *Frame, st *State, c *callCtx) Val {
+		f := ex.declFun("uf|regexmatch", []string{sInt, sStr}, sBool)
+		return boolV(app(f, c.args[0].L[0], c.args[1].L[0]))
+	}
+
 	// ---- slices / strings helpers (deterministic functions of their arguments) ----
 	s["slices.Contains"] = func(ex *Exec, fr *Frame, st *State, c *callCtx) Val {
 		return boolV(ex.def("contains", sBool, ex.containsTerm(st, c.args[0], c.args[1])))
